@@ -9,12 +9,14 @@ import (
 	"strconv"
 
 	"github.com/golang/protobuf/proto"
+	"github.com/xuperchain/xupercore/bcs/ledger/xledger/state"
 	"github.com/xuperchain/xupercore/bcs/ledger/xledger/state/utxo/txhash"
 	"github.com/xuperchain/xupercore/bcs/ledger/xledger/state/xmodel"
 	pb "github.com/xuperchain/xupercore/bcs/ledger/xledger/xldgpb"
 	xctx "github.com/xuperchain/xupercore/kernel/common/xcontext"
 	"github.com/xuperchain/xupercore/kernel/contract/sandbox"
 	"github.com/xuperchain/xupercore/kernel/engines/xuperos"
+	kledger "github.com/xuperchain/xupercore/kernel/ledger"
 	"github.com/xuperchain/xupercore/lib/timer"
 	"github.com/xuperchain/xupercore/protos"
 
@@ -39,7 +41,11 @@ func (u utxoRef) input() *protos.TxInput {
 
 // world is one real node (ledger + state machine + contract manager + acl ...) with the engine's Chain on top.
 type world struct {
-	node  *fx.Node
+	node *fx.Node
+	// cold: a second node opened on the SAME stored data (the in-memory kv engine hands out one image per path) that executes
+	// nothing: its caches know no version this world's transactions create, so it reads every new version the way a restarted
+	// node, a snapshot reader or a node whose cache entry was evicted does - from the stored tables and the stored transaction
+	cold  *fx.Node
 	chain *xuperos.Chain
 	ctx   xctx.XContext
 	fund  utxoRef
@@ -54,6 +60,9 @@ func newWorld(name string) (*world, error) {
 		return nil, err
 	}
 	w := &world{node: n, stats: map[string]int{}}
+	if w.cold, err = fx.OpenNode(name); err != nil {
+		return nil, fmt.Errorf("second node on the same data: %v", err)
+	}
 	// the engine's own Chain over the fixture's chain context (export_verif.go in kernel/engines/xuperos)
 	w.chain = xuperos.NewChainForVerif(n.Ctx)
 	w.ctx = &xctx.BaseCtx{XLog: n.Ctx.XLog, Timer: timer.NewXTimer()}
@@ -91,7 +100,8 @@ func (w *world) doSetupTx(tx *pb.Transaction) error {
 type kase struct {
 	w      *world
 	k      int
-	name   string // contract name = bucket = address receiving transfers into the contract
+	name   string // contract name = address receiving transfers into the contract
+	bucket string // bucket of the contract's keys: sorts before the transient bucket (even cases) or after it (odd cases)
 	vault  string // account the contract transfers from
 	rcpt   string // recipient of the contract's transfers
 	ini    *fx.Key
@@ -113,7 +123,13 @@ func newKaseOwn(w *world, k int, own bool) *kase {
 	if own {
 		c.vault = c.name
 	}
-	register(w.node.Contract.GetKernRegistry(), c.name, c.vault, c.rcpt)
+	// the write set is ordered by bucket and key: "$c9n.." < "$transient" < "c9b..", so in odd cases the records of the transient
+	// bucket (contract utxo inputs / outputs, events) precede the contract's writes in TxOutputsExt
+	c.bucket = c.name
+	if k%2 == 1 {
+		c.bucket = fmt.Sprintf("c9b%d", k)
+	}
+	register(w.node.Contract.GetKernRegistry(), c.name, c.bucket, c.vault, c.rcpt)
 	return c
 }
 
@@ -141,8 +157,8 @@ func (c *kase) setup(kv []string, nu int) error {
 		if st == "never" {
 			continue
 		}
-		s0.TxInputsExt = append(s0.TxInputsExt, &protos.TxInputExt{Bucket: c.name, Key: keyName(i + 1)})
-		s0.TxOutputsExt = append(s0.TxOutputsExt, &protos.TxOutputExt{Bucket: c.name, Key: keyName(i + 1), Value: []byte("x")})
+		s0.TxInputsExt = append(s0.TxInputsExt, &protos.TxInputExt{Bucket: c.bucket, Key: keyName(i + 1)})
+		s0.TxOutputsExt = append(s0.TxOutputsExt, &protos.TxOutputExt{Bucket: c.bucket, Key: keyName(i + 1), Value: []byte("x")})
 	}
 	if err := w.doSetupTx(s0); err != nil {
 		return fmt.Errorf("setup tx s0: %v", err)
@@ -155,7 +171,7 @@ func (c *kase) setup(kv []string, nu int) error {
 		if st == "never" {
 			continue
 		}
-		vd, err := rd.Get(c.name, keyName(i+1))
+		vd, err := rd.Get(c.bucket, keyName(i+1))
 		if err != nil {
 			return err
 		}
@@ -163,8 +179,8 @@ func (c *kase) setup(kv []string, nu int) error {
 		if st == "del" {
 			val = []byte(sandbox.DelFlag)
 		}
-		s.TxInputsExt = append(s.TxInputsExt, &protos.TxInputExt{Bucket: c.name, Key: keyName(i + 1), RefTxid: vd.RefTxid, RefOffset: vd.RefOffset})
-		s.TxOutputsExt = append(s.TxOutputsExt, &protos.TxOutputExt{Bucket: c.name, Key: keyName(i + 1), Value: val})
+		s.TxInputsExt = append(s.TxInputsExt, &protos.TxInputExt{Bucket: c.bucket, Key: keyName(i + 1), RefTxid: vd.RefTxid, RefOffset: vd.RefOffset})
+		s.TxOutputsExt = append(s.TxOutputsExt, &protos.TxOutputExt{Bucket: c.bucket, Key: keyName(i + 1), Value: val})
 	}
 	if len(s.TxOutputsExt) > 0 {
 		if err := w.doSetupTx(s); err != nil {
@@ -177,13 +193,13 @@ func (c *kase) setup(kv []string, nu int) error {
 
 // interleave: another client's transaction overwrites key n with "i" between pre-execution and submission.
 func (c *kase) interleave(n int) error {
-	vd, err := c.w.node.State.CreateXMReader().Get(c.name, keyName(n))
+	vd, err := c.w.node.State.CreateXMReader().Get(c.bucket, keyName(n))
 	if err != nil {
 		return err
 	}
 	tx := &pb.Transaction{}
-	tx.TxInputsExt = []*protos.TxInputExt{{Bucket: c.name, Key: keyName(n), RefTxid: vd.RefTxid, RefOffset: vd.RefOffset}}
-	tx.TxOutputsExt = []*protos.TxOutputExt{{Bucket: c.name, Key: keyName(n), Value: []byte("i")}}
+	tx.TxInputsExt = []*protos.TxInputExt{{Bucket: c.bucket, Key: keyName(n), RefTxid: vd.RefTxid, RefOffset: vd.RefOffset}}
+	tx.TxOutputsExt = []*protos.TxOutputExt{{Bucket: c.bucket, Key: keyName(n), Value: []byte("i")}}
 	if err := c.w.doSetupTx(tx); err != nil {
 		return err
 	}
@@ -237,7 +253,11 @@ type respObs struct {
 	Other []string   `json:"other"` // anything a response should not contain (unknown buckets, keys, limits)
 }
 type obs struct {
-	Keys      []keyObs `json:"keys"`
+	Keys      []keyObs `json:"keys"`  // read on the node that executed the steps (warm version cache)
+	Cold      []keyObs `json:"cold"`  // read on the second node, which has nothing but the stored data
+	Ref       []int    `json:"ref"`   // key of the write record each key's stored version refers to
+	Scan      []int    `json:"scan"`  // range read over the bucket, first node
+	Cscan     []int    `json:"cscan"` // range read over the bucket, second node
 	Bal       balObs   `json:"bal"`
 	Transient []string `json:"transient"` // versions of the three records of the transient bucket in the stored state
 	Resp      respObs  `json:"resp"`
@@ -258,7 +278,7 @@ func (c *kase) verName(txid []byte) string {
 }
 
 func (c *kase) keyIndex(bucket string, key []byte) int {
-	if bucket != c.name || len(key) != 2 || key[0] != 'k' {
+	if bucket != c.bucket || len(key) != 2 || key[0] != 'k' {
 		return 0
 	}
 	n, err := strconv.Atoi(string(key[1:]))
@@ -297,9 +317,87 @@ func (c *kase) outs(os []*protos.TxOutput) []outObs {
 	return out
 }
 
+// readKeys: the three keys (value + version) through the public reader of one node.
+func (c *kase) readKeys(rd kledger.XMReader) []keyObs {
+	out := []keyObs{}
+	for n := 1; n <= 3; n++ {
+		vd, err := rd.Get(c.bucket, keyName(n))
+		switch {
+		case err != nil:
+			out = append(out, keyObs{"err", err.Error()})
+		case vd == nil || len(vd.RefTxid) == 0:
+			out = append(out, keyObs{"-", "none"})
+		case c.keyIndex(vd.GetPureData().GetBucket(), vd.GetPureData().GetKey()) != n:
+			// the reader answered with a record of another key
+			out = append(out, keyObs{"record " + vd.GetPureData().GetBucket() + "/" + string(vd.GetPureData().GetKey()), c.verName(vd.RefTxid)})
+		case string(vd.GetPureData().GetValue()) == sandbox.DelFlag:
+			out = append(out, keyObs{"-", c.verName(vd.RefTxid)})
+		default:
+			out = append(out, keyObs{string(vd.GetPureData().GetValue()), c.verName(vd.RefTxid)})
+		}
+	}
+	return out
+}
+
+// scanKeys: the keys a range read over the whole bucket returns on one node: n = key n, -n = key n with the delete mark as
+// its value, 0 = a record of no key of the case, -9 = the iterator failed.
+func (c *kase) scanKeys(rd kledger.XMReader) []int {
+	out := []int{}
+	it, err := rd.Select(c.bucket, nil, nil)
+	if err != nil {
+		return []int{-9}
+	}
+	defer it.Close()
+	for it.Next() {
+		n := c.keyIndex(it.Value().GetPureData().GetBucket(), it.Key())
+		if string(it.Value().GetPureData().GetValue()) == sandbox.DelFlag {
+			n = -n
+		}
+		out = append(out, n)
+	}
+	if it.Error() != nil {
+		out = append(out, -9)
+	}
+	return out
+}
+
+// refKeys: for every key, the key of the write record its stored version (transaction id, offset) refers to, as any client
+// resolves it (QueryTx, TxOutputsExt[offset]): 0 = no version, -1 = no such transaction / record, -2 = a record of the transient
+// bucket, -3 = a record of no key of the case.
+func (c *kase) refKeys(st *state.State) []int {
+	out := []int{}
+	rd := st.CreateXMReader()
+	for n := 1; n <= 3; n++ {
+		vd, err := rd.Get(c.bucket, keyName(n))
+		if err != nil {
+			out = append(out, -1)
+			continue
+		}
+		if vd == nil || len(vd.RefTxid) == 0 {
+			out = append(out, 0)
+			continue
+		}
+		tx, _, err := st.QueryTx(vd.RefTxid)
+		if err != nil || tx == nil || int(vd.RefOffset) >= len(tx.TxOutputsExt) || vd.RefOffset < 0 {
+			out = append(out, -1)
+			continue
+		}
+		rec := tx.TxOutputsExt[vd.RefOffset]
+		switch m := c.keyIndex(rec.Bucket, rec.Key); {
+		case m != 0:
+			out = append(out, m)
+		case rec.Bucket == sandbox.TransientBucket:
+			out = append(out, -2)
+		default:
+			out = append(out, -3)
+		}
+	}
+	return out
+}
+
 func (c *kase) project() obs {
 	st := c.w.node.State
-	o := obs{Keys: []keyObs{}, Transient: []string{}, Resp: c.robs}
+	o := obs{Transient: []string{}, Resp: c.robs}
 	rd := st.CreateXMReader()
 	for _, k := range []string{"ContractUtxo.Inputs", "ContractUtxo.Outputs", "contractEvent"} {
 		vd, err := rd.Get(sandbox.TransientBucket, []byte(k))
@@ -312,19 +410,10 @@ func (c *kase) project() obs {
 			o.Transient = append(o.Transient, c.verName(vd.RefTxid))
 		}
 	}
-	for n := 1; n <= 3; n++ {
-		vd, err := rd.Get(c.name, keyName(n))
-		switch {
-		case err != nil:
-			o.Keys = append(o.Keys, keyObs{"err", err.Error()})
-		case vd == nil || len(vd.RefTxid) == 0:
-			o.Keys = append(o.Keys, keyObs{"-", "none"})
-		case string(vd.GetPureData().GetValue()) == sandbox.DelFlag:
-			o.Keys = append(o.Keys, keyObs{"-", c.verName(vd.RefTxid)})
-		default:
-			o.Keys = append(o.Keys, keyObs{string(vd.GetPureData().GetValue()), c.verName(vd.RefTxid)})
-		}
-	}
+	crd := c.w.cold.State.CreateXMReader()
+	o.Keys, o.Scan, o.Ref = c.readKeys(rd), c.scanKeys(rd), c.refKeys(st)
+	o.Cold, o.Cscan = c.readKeys(crd), c.scanKeys(crd)
+	c.w.stats["cold_reads"] += len(o.Cold)
 	bal := func(a string) int64 {
 		b, err := st.GetBalance(a)
 		if err != nil {
@@ -468,6 +557,10 @@ func (c *kase) honest() *parts {
 }
 
 func (c *kase) setVersion(in *protos.TxInputExt, ver string) {
+	if ver == "off" { // the same transaction, another offset
+		in.RefOffset++
+		return
+	}
 	in.RefTxid, in.RefOffset = nil, 0
 	if ver == "none" {
 		return
@@ -522,11 +615,11 @@ func (c *kase) tamper(p *parts, op fx.Ev) error {
 		}
 		return fmt.Errorf("read_drop: key %d is not in the read set", n)
 	case "read_add":
-		vd, err := c.w.node.State.CreateXMReader().Get(c.name, keyName(n))
+		vd, err := c.w.node.State.CreateXMReader().Get(c.bucket, keyName(n))
 		if err != nil {
 			return err
 		}
-		p.insExt = append(p.insExt, &protos.TxInputExt{Bucket: c.name, Key: keyName(n), RefTxid: vd.RefTxid, RefOffset: vd.RefOffset})
+		p.insExt = append(p.insExt, &protos.TxInputExt{Bucket: c.bucket, Key: keyName(n), RefTxid: vd.RefTxid, RefOffset: vd.RefOffset})
 	case "write_drop", "write_val":
 		at := -1
 		for i, o := range p.outsExt {
@@ -542,8 +635,47 @@ func (c *kase) tamper(p *parts, op fx.Ev) error {
 		} else {
 			p.outsExt = append(p.outsExt[:at], p.outsExt[at+1:]...)
 		}
-	case "write_add":
-		p.outsExt = append(p.outsExt, &protos.TxOutputExt{Bucket: c.name, Key: keyName(n), Value: concVal(v)})
+	case "write_add", "write_app":
+		// one more record at the end of the write set (write_app: for a key that has a record already)
+		p.outsExt = append(p.outsExt, &protos.TxOutputExt{Bucket: c.bucket, Key: keyName(n), Value: concVal(v)})
+	case "write_dup", "write_swap":
+		// write_dup: the record of key n becomes a copy of the record of key j (the number of records stays);
+		// write_swap: the two records change places
+		at, from := -1, -1
+		for i, o := range p.outsExt {
+			switch c.keyIndex(o.Bucket, o.Key) {
+			case n:
+				at = i
+			case j:
+				from = i
+			}
+		}
+		if at < 0 || from < 0 || at == from {
+			return fmt.Errorf("%s: keys %d and %d are not both in the write set", op.Str("tk"), n, j)
+		}
+		if op.Str("tk") == "write_swap" {
+			p.outsExt[at], p.outsExt[from] = p.outsExt[from], p.outsExt[at]
+		} else {
+			p.outsExt[at] = proto.Clone(p.outsExt[from]).(*protos.TxOutputExt)
+		}
+	case "read_dup":
+		// one more record for a declared read, with version v, before the first record of the read set or after the last
+		at := -1
+		for i, in := range p.insExt {
+			if c.keyIndex(in.Bucket, in.Key) == n {
+				at = i
+			}
+		}
+		if at < 0 {
+			return fmt.Errorf("read_dup: key %d is not in the read set", n)
+		}
+		dup := proto.Clone(p.insExt[at]).(*protos.TxInputExt)
+		c.setVersion(dup, v)
+		if d == "first" {
+			p.insExt = append([]*protos.TxInputExt{dup}, p.insExt...)
+		} else {
+			p.insExt = append(p.insExt, dup)
+		}
 	case "arg":
 		var prog []step
 		b, _ := json.Marshal(op["prog"])
@@ -642,6 +774,12 @@ func (c *kase) tamper(p *parts, op fx.Ev) error {
 			sum.Add(sum, new(big.Int).SetBytes(o.Amount))
 		}
 		p.cOuts = []*protos.TxOutput{{ToAddr: []byte(c.ini.Address), Amount: sum.Bytes()}}
+	case "cout_drop":
+		// one of the contract's outputs is left out of the real outputs; its amount stays with the client (change)
+		if j < 1 || j > len(p.cOuts) {
+			return fmt.Errorf("cout_drop: no contract output %d", j)
+		}
+		p.cOuts = append(append([]*protos.TxOutput{}, p.cOuts[:j-1]...), p.cOuts[j:]...)
 	case "cin_omit":
 		p.cIns = nil
 	case "cin_extra":
@@ -769,6 +907,17 @@ func (c *kase) submit(op fx.Ev) (res string, extra fx.Ev, err error) {
 		extra["stage"] = "dotx"
 		extra["err"] = derr.Error()
 		return "reject", extra, nil
+	}
+	// exercise counter: committed write sets in which a record of the transient bucket precedes a write of the contract
+	// (the offset part of a stored version is the index in the whole list)
+	seenTransient := false
+	for _, o := range wire.TxOutputsExt {
+		if o.Bucket == sandbox.TransientBucket {
+			seenTransient = true
+		} else if seenTransient {
+			c.w.stats["admit_write_after_transient"]++
+			break
+		}
 	}
 	return "admit", extra, nil
 }
